@@ -80,10 +80,24 @@ PROPS = {
     "C01": {
         "units": ["tau"],
         "level": "other",
-        "property_obligations": ["choose_fresh_variable_names", "lemma_taken_bound", "lemma_pigeonhole"],
+        "property_obligations": ["val", "construct_equality_formula", "construct_total_function_formula", "construct_partial_function_formula",
+                                 "construct_interval_formula", "choose_fresh_variable_names", "lemma_val_total", "lemma_val_unary", "lemma_val_partial",
+                                 "lemma_val_interval", "lemma_in_vals_coin", "lemma_taken_bound", "lemma_pigeonhole", "lemma_ex2", "lemma_ex3", "lemma_ex4"],
         "carriers": [],
-        "explanation": "wip",
-        "assumptions": [],
+        "explanation": "The term-value layer of tau* is proved on the real code (Verus, unbounded): for every mini-gringo term t (all operator nestings, intervals, division, modulo, unary minus) and every output "
+                       "variable z, val(t, z) is satisfied — in both worlds of every HT interpretation, under every assignment — exactly when the value of z is one of the values of t under the mini-gringo "
+                       "semantics in_vals (spec/tau_spec.rs), and its free variables are z and the variables of t; this includes the fresh-name reasoning (I, J, K, Q, R chosen by the real "
+                       "choose_fresh_variable_names, proved to return pairwise distinct names outside the given set, with termination and no overflow), nested shadowing, and adversarial program variable names. "
+                       "NOT yet under contract: the body-literal, comparison and rule layers (tau_b*, tau_body, tau_star_*_rule, choose_fresh_global_variables, tau_star) and the step from HT models to stable models.",
+        "assumptions": [
+            "SPEC ASSUMPTION: integer division/modulo are defined for a positive divisor only, as floor division (i = j*q + r, 0 <= r < j), following the comment in construct_partial_function_formula; "
+            "the relation of this convention to clingo's truncating division is not decided here",
+            "tau_b_first_order_literal, tau_b_comparison, tau_b, tau_body, tau_star_fo_head_rule, tau_star_prop_head_rule, tau_star_constraint_rule, tau_star_rule, choose_fresh_global_variables: NOT verified",
+            "stable models = equilibrium models of the tau* theory (Lifschitz, Luehne, Schaub 2019): literature, not re-proved",
+            "Display of fol::Variable / asp::Variable is opaque (only used to build the set of taken names; freshness of I/J/K/Q/R is needed only w.r.t. the output variable, sorts separate them from program variables)",
+            "IndexSet length <= isize::MAX (Rust allocation limit)",
+        ],
+        "not_covered": ["tau_b*", "tau_body", "tau_star_*_rule", "choose_fresh_global_variables"],
     },
     "C02": {
         "units": ["ext"],
@@ -103,6 +117,24 @@ PROPS = {
             "ExternalEquivalenceTask::decompose (theory_translate, control_translate, renaming of clashing private predicates, ensure_* ordering): NOT verified",
         ],
         "not_covered": ["ExternalEquivalenceTask::decompose", "AssembledExternalEquivalenceTask::decompose", "RenamePredicates", "replace_placeholders", "completion"],
+    },
+    "C08": {
+        "units": ["nat"],
+        "level": "other",
+        "property_obligations": ["contains_symbol_or_infimum_or_supremum", "is_term_regular_of_first_kind", "is_term_regular_of_second_kind",
+                                 "p2f_int_term", "p2f", "lemma_p2f_int_value", "Program::mu"],
+        "carriers": [],
+        "explanation": "Pieces of C08 under contract (Verus, real code): the three regularity predicates equal the documented definitions (spec_sis, spec_reg1, spec_reg2); p2f_int_term and p2f equal their spec mirrors, "
+                       "and lemma_p2f_int_value proves that a term p2f_int_term translates has, when its variables hold integers, exactly the integer value the translated term denotes and no value otherwise "
+                       "(w.r.t. the mini-gringo term semantics in_vals of C01) — i.e. integer-sorted variables are sound for such terms; Mu::mu never fails and emits, rule by rule, the natural translation when it exists and "
+                       "tau* otherwise. NOT decided: HT-equivalence of natural_rule with tau_star_rule at the level of whole rules (natural_comparison, literals, heads with intervals, int_variables, "
+                       "fresh_variables_for_head_atom — iterator chains with closures over Option, enumerate, unbounded `loop`).",
+        "assumptions": [
+            "natural_rule, tau_star_rule, choose_fresh_global_variables are stand-ins inside Mu::mu (their own correctness is C01 / the uncovered part of C08)",
+            "rule-level equivalence natural vs tau*: NOT verified",
+            "indexmap `contains` accepts borrowed keys (&str for String)",
+        ],
+        "not_covered": ["natural_rule (rule level)", "int_variables", "fresh_variables_for_head_atom", "natural_head_*", "natural_comparison"],
     },
     "C09": {
         "units": ["problem"],
